@@ -24,6 +24,7 @@ Two parts, reported separately in the evidence.
 """
 from __future__ import annotations
 
+import copy as _copy
 import itertools
 import json
 import pickle
@@ -48,15 +49,19 @@ RULE = ("(A) cases = Python values for freeze_value (all values of nesting depth
         "≥1 transition; distinct = distinct encoded values / (class, definition, operation) tuples")
 ASSUMPTIONS = [
     "part (B) is MONITORED at level 'other': absence of operand mutation and of harmful aliasing is observed on sampled histories, not proved",
-    "freeze_value is meant for values whose tuples / frozensets / keys hold only immutable members (`supported`); a list inside a tuple is not looked at by the code and is outside the property's domain (documented in notes/C18.md)",
+    "freeze_value theorems assume `supported`: every dict key and every set/frozenset element is hashable (on the model: contains no dict/set/list). This excludes nothing that exists: Python raises TypeError (unhashable type) when such a dict/set/frozenset is built. Lists inside tuples ARE covered (fix 3900daf)",
     "frozendict is the pure-Python implementation (a subclass of dict), as installed here",
     "objects other than str/int/dict/set/list/tuple/frozenset/frozendict are atoms assumed immutable (None, float, …)",
     "pickle's byte encoding is CPython's and trusted; the model covers __getstate__/__setstate__",
+    "show_diagram (DFA / NFA / GNFA / DPDA / NPDA) cannot be exercised here: pygraphviz / coloraide are not installed, the method raises ImportError before touching the automaton; that it leaves its operand unchanged is therefore NOT observed by the histories",
+    "an exception inside a history that is not a documented refusal (AutomatonException subclasses; NotImplementedError of GNFA readers; ValueError of DFA.random_word) is reported as a failure",
 ]
-EXPLANATION = ("Theorems C18_* prove for the model: freeze leaves no mutable container in supported values, preserves the "
-               "abstract value, is idempotent; setattr/delattr always raise AttributeError; for every class the public "
-               "slots are exactly the __init__ parameters (regenerated tables) and copy/pickle return an object of the "
-               "same class with identical input_parameters. The monitored part (B) observes the real objects.")
+EXPLANATION = ("Theorems C18_* prove for the model: freeze (tuples entered, fix 3900daf) leaves no mutable container in any value "
+               "whose dict keys / set elements are hashable (every value Python can build), preserves the abstract value, is "
+               "idempotent; setattr/delattr raise AttributeError because the regenerated AST shape of the two hooks is a single "
+               "unconditional raise; for every class the public slots are exactly the __init__ parameters (regenerated tables, "
+               "defaults included) and copy/pickle return an object of the same class with identical input_parameters that "
+               "passes the constructor's validation again. The monitored part (B) observes the real objects.")
 TRUSTED_EXTRA = ["harness/monitor.py tracked containers (part B is observation, level 'other')"]
 
 DRV = "drv_misc"
@@ -75,13 +80,29 @@ def is_frozen_py(v) -> bool:
 
 
 def supported_py(v) -> bool:
+    """The model's `supported`: every dict key and every set / frozenset element is hashable
+    (= immutable through and through); lists, tuples and dict values may hold anything.  Python
+    cannot build a value that fails this (TypeError: unhashable type), so on real inputs it is
+    always True — the flag is compared with the model's all the same."""
     if isinstance(v, (dict, frozendict)):
         return all(is_frozen_py(k) and supported_py(x) for k, x in v.items())
-    if isinstance(v, list):
+    if isinstance(v, (list, tuple)):
         return all(supported_py(x) for x in v)
-    if isinstance(v, (set, frozenset, tuple)):
+    if isinstance(v, (set, frozenset)):
         return all(is_frozen_py(x) for x in v)
     return True
+
+
+def has_list_in_tuple(v, in_tuple: bool = False) -> bool:
+    """Does a mutable container sit (directly) inside a tuple somewhere?  (the shapes
+    freeze_value did not reach before /repo fix 3900daf)"""
+    if isinstance(v, (dict, frozendict)):
+        return (in_tuple and not isinstance(v, frozendict)) or any(has_list_in_tuple(x) for x in v.values())
+    if isinstance(v, (list, set)):
+        return in_tuple or any(has_list_in_tuple(x) for x in v)
+    if isinstance(v, tuple):
+        return any(has_list_in_tuple(x, True) for x in v)
+    return False
 
 
 def depth_has_nested_mutable(v) -> bool:
@@ -114,6 +135,8 @@ def check_freeze(ctx: Ctx, v, origin: str):
     ctx.case(("freeze", enc) if depth_has_nested_mutable(v) else None)
     ctx.stat(f"freeze:{origin}")
     ctx.stat("freeze:supported" if supported_py(v) else "freeze:unsupported")
+    if has_list_in_tuple(v):
+        ctx.stat("freeze:mutable_inside_tuple")
     if ctx.evaluations % 2003 == 11:
         ctx.sample(dict(value=repr(v)[:200], frozen=repr(real)[:200], model=fz[:200]))
     bad = []
@@ -261,6 +284,8 @@ def check_object_model(ctx: Ctx, cls: str, kw, origin: str, m0: bool, m1: bool, 
     model_new = parse_inst(ctx.driver(DRV).ask(f"NEW {int(m0)} " + enc))
     ctx.case(("new", cls, enc, m0, m1) if C19_nontrivial(kw) else None)
     ctx.stat(f"object:{origin}:{cls}")
+    if has_list_in_tuple(kw.get("transitions")):
+        ctx.stat(f"object:list_inside_tuple:{cls}")
     if impl_new != model_new:
         ctx.corr_diff("NEW", dict(cls=cls, kwargs=repr(kw), m0=m0), impl_new, model_new)
     if obj is None:
@@ -294,6 +319,91 @@ def check_object_model(ctx: Ctx, cls: str, kw, origin: str, m0: bool, m1: bool, 
 def C19_nontrivial(kw) -> bool:
     return "states" in kw and "transitions" in kw and len(kw["states"]) >= 2 and any(
         len(r) > 0 for r in kw["transitions"].values())
+
+
+# ------------------------------------------------------------------ "tuple holding list" definitions
+TL_CLASSES = ("MNTM", "NTM", "DPDA", "NPDA")
+
+
+def tuple_list_def(rng, cls: str) -> Dict[str, Any]:
+    """A valid definition of an MNTM / NTM / DPDA / NPDA in which a *tuple holds a list*: the
+    shapes freeze_value did not reach before /repo fix 3900daf (it returned tuples as they were).
+      MNTM  result (state, [[sym, dir], …]) / (state, [(sym, dir), …]) / (state, ([sym, dir], …)),
+            the results of a key in a list or in a tuple          (reviewer: [('q1', [['1','R']])])
+      NTM   the results of a symbol as a tuple of lists ([state, sym, dir], …) instead of a set of tuples
+      DPDA  result (state, [pushed symbols])                      (reviewer: ('q1', ['1','0']))
+      NPDA  the results of a stack symbol as a tuple of (state, [pushed symbols])
+    All are accepted by validate() and run like their all-tuple counterparts in the default
+    configuration."""
+    kw: Dict[str, Any] = {}
+    for _ in range(30):
+        kw = G.rand_def(rng, cls)
+        n = 0
+        for q, row in kw["transitions"].items():
+            for key in list(row.keys()):
+                v = row[key]
+                if cls == "MNTM":
+                    res = []
+                    for (t, moves) in v:
+                        shape = rng.randrange(3)
+                        if shape == 0:
+                            mv: Any = [list(m) for m in moves]
+                        elif shape == 1:
+                            mv = [tuple(m) for m in moves]
+                        else:
+                            mv = tuple(list(m) for m in moves)
+                        res.append((t, mv))
+                        n += 1
+                    row[key] = tuple(res) if rng.random() < 0.5 else res
+                elif cls == "NTM":
+                    row[key] = tuple(list(r) for r in sorted(v, key=repr))
+                    n += len(v)
+                elif cls == "DPDA":
+                    for g, (t, p) in list(v.items()):
+                        v[g] = (t, list(p))
+                        n += 1
+                else:
+                    for g, rs in list(v.items()):
+                        v[g] = tuple((t, list(p)) for (t, p) in sorted(rs, key=repr))
+                        n += len(rs)
+        if n and len(kw["states"]) >= 2:
+            return kw
+    return kw
+
+
+def containers_deep(x, out: list) -> list:
+    """Every dict / set / list object reachable inside x — also through tuples, frozensets and
+    frozendict values."""
+    if isinstance(x, (dict, frozendict)):
+        if not isinstance(x, frozendict):
+            out.append(x)
+        for v in list(x.values()):
+            containers_deep(v, out)
+    elif isinstance(x, (list, set)):
+        out.append(x)
+        for v in list(x):
+            containers_deep(v, out)
+    elif isinstance(x, (tuple, frozenset)):
+        for v in x:
+            containers_deep(v, out)
+    return out
+
+
+def mutate_containers(rng, cs: list):
+    """Change every collected container in place (reviewer's `moves[0][1] = 'L'` included: the
+    last atom of a list is overwritten)."""
+    for c in cs:
+        if isinstance(c, list):
+            if c and isinstance(c[-1], (str, int)):
+                c[-1] = "L" if c[-1] != "L" else "R"
+            else:
+                c.append("%")
+            if rng.random() < 0.3:
+                c.append("%")
+        elif isinstance(c, set):
+            c.add(("#added", 2))
+        else:
+            c[("#added", 2)] = None
 
 
 # ------------------------------------------------------------------ (B) default mode probes
@@ -349,6 +459,8 @@ def probe_default(ctx: Ctx, cls: str, kw, rng, origin: str):
     rp = dict(kind="default_probe", cls=cls, kwargs=repr(kw))
     ctx.case(("probe", cls, E.enc_def(cls, kw)) if C19_nontrivial(kw) and "list_results" not in origin else None)
     ctx.stat(f"monitored(other):probe_default:{cls}")
+    if has_list_in_tuple(kw.get("transitions")):
+        ctx.stat(f"monitored(other):probe_default:list_inside_tuple:{cls}")
     snap = G.snapshot(obj.input_parameters)
     # nested containers immutable (public parameters and __dict__ extras such as GNFA.final_states)
     mc = []
@@ -359,10 +471,18 @@ def probe_default(ctx: Ctx, cls: str, kw, rng, origin: str):
             mc += Mon.mutable_containers(v, "__dict__." + k)
     if mc:
         ctx.prop_fail(f"{cls}: a mutable container is stored in the default configuration at {mc[:3]}", rp, None)
-    # later mutation of the arguments
+    # later mutation of the arguments: the class-shaped edits, then every mutable container
+    # reachable in the arguments (through tuples too), each changed in place
+    cs = containers_deep(args, [])
     mutate_args(rng, args)
     if G.snapshot(obj.input_parameters) != snap:
         ctx.prop_fail(f"{cls}: mutating the constructor arguments afterwards changed the automaton", rp, None)
+    else:
+        mutate_containers(rng, cs)
+        if G.snapshot(obj.input_parameters) != snap:
+            ctx.prop_fail(f"{cls}: mutating a container nested in the constructor arguments afterwards changed the "
+                          f"automaton: {Mon.mutable_containers(obj.input_parameters.get('transitions'), 'transitions')[:2]}",
+                          rp, None)
     # attribute protocol
     names = [s for s in type(obj).__slots__] + ["brand_new", "_private", "states"]
     for name in names:
@@ -392,12 +512,46 @@ def probe_default(ctx: Ctx, cls: str, kw, rng, origin: str):
 
 
 # ------------------------------------------------------------------ (B) monitored histories
+def extra_definition(obj):
+    """Definition attributes kept outside `input_parameters`: `__dict__` entries that are neither
+    private nor the per-instance caches of `cached_method` (those are keyed by the name of a method
+    of the class).  At present: GNFA.final_states = {final_state}, bound by GNFA.__init__ — under
+    the mutable option a plain `set` created inside the library, which no tracked container covers."""
+    return G.norm({k: v for k, v in getattr(obj, "__dict__", {}).items()
+                   if not k.startswith("_") and not hasattr(type(obj), k)})
+
+
 class Member:
     def __init__(self, cls, obj, kw, tracked: bool):
         self.cls, self.obj, self.kw, self.tracked = cls, obj, kw, tracked
         self.snap = G.snapshot(obj.input_parameters)
-        self.extra = G.norm({k: v for k, v in getattr(obj, "__dict__", {}).items()
-                             if k in ("final_states",)})
+        self.extra = extra_definition(obj)
+
+
+def _pickle_rt(m, a):
+    p = a["seed"] % (pickle.HIGHEST_PROTOCOL + 2)
+    return pickle.loads(pickle.dumps(m, protocol=None if p > pickle.HIGHEST_PROTOCOL else p))
+
+
+def roundtrip_ops(cls: str):
+    """pickle (every protocol), copy.copy, copy.deepcopy on an operand — they go through
+    __reduce_ex__ / __getstate__ / __setstate__; under the mutable option copy.copy returns an
+    automaton that *shares* every container with the operand, so later calls on it are watched
+    through the same tracked containers."""
+    return [
+        (f"{cls}.pickle.loads(pickle.dumps)", _pickle_rt),
+        (f"{cls}.copy.copy", lambda m, a: _copy.copy(m)),
+        (f"{cls}.copy.deepcopy", lambda m, a: _copy.deepcopy(m)),
+    ]
+
+
+ROUNDTRIP_SUFFIXES = (".copy", ".pickle.loads(pickle.dumps)", ".copy.copy", ".copy.deepcopy")
+
+# Refusals that are documented although they are not AutomatonExceptions (none at present besides
+# the ones misc_common.is_documented knows); an exception outside this list inside a history is
+# reported as a failure: an accepted automaton passed to a public operation must not crash.
+def documented_refusal(name: str, e: BaseException) -> bool:
+    return M.is_documented(name, e)
 
 
 @guarded
@@ -413,6 +567,12 @@ def history(ctx: Ctx, rng, mutable: bool, steps: int, classes: List[str], origin
                     kw = G.rand_def(rng, cls, junk=rng.random() < 0.3, alphabet=alphabet)
                     if cls == "NFA":
                         ensure_final_eps(rng, kw)
+                elif cls in ("MNTM", "NTM") and rng.random() < 0.3:
+                    kw = tuple_list_def(rng, cls)      # a tuple holding a list (tracked through the tuple)
+                elif cls in ("DPDA", "NPDA") and not mutable and rng.random() < 0.3:
+                    # (default mode only: with the list kept un-frozen under the mutable option the PDA
+                    # configurations are unhashable — an accepted-but-unusable shape that C19 judges)
+                    kw = tuple_list_def(rng, cls)
                 elif cls == "MNTM":
                     kw = G.rand_tm_def(rng, "MNTM", list_results=rng.random() < 0.5)
                 else:
@@ -429,7 +589,7 @@ def history(ctx: Ctx, rng, mutable: bool, steps: int, classes: List[str], origin
     trace = []
     for step in range(steps):
         m = rng.choice(pool)
-        ops1 = M.unary_ops(m.cls)
+        ops1 = M.unary_ops(m.cls) + roundtrip_ops(m.cls)
         ops2 = M.binary_ops(m.cls)
         a = M.arg_pack(rng, m.obj.input_symbols)
         if ops2 and rng.random() < 0.4:
@@ -455,12 +615,27 @@ def history(ctx: Ctx, rng, mutable: bool, steps: int, classes: List[str], origin
         ctx.stat(f"monitored(other):history:{'mutable' if mutable else 'default'}:{name}")
         rp = dict(kind="history", mutable=mutable, pool=build, trace=[(n, i, dict(ar)) for n, i, ar in trace][-12:],
                   step=step, classes=classes)
-        if res[0] == "err" and not M.is_documented(name, res[1]):
-            # not an immutability question (C19 judges undocumented errors); the operands must
-            # nevertheless be unchanged after a failed call, which is checked below
+        if res[0] == "err" and not documented_refusal(name, res[1]):
+            # an operation on accepted automata raised something its documentation does not
+            # announce.  That is not a failure of THIS property (C18 is about definitions never
+            # changing; whether accepted automata are usable is C19's question, which runs the same
+            # operations) — it is counted, and the operands are compared below all the same: an
+            # operation that changed an operand before raising is still reported.
             ctx.stat("monitored(other):history:undocumented_exception")
-            if ctx.stats["monitored(other):history:undocumented_exception"] <= 3:
-                ctx.note(f"history: {name} raised {type(res[1]).__name__}: {str(res[1])[:100]} (judged by C19, not C18)")
+            ctx.stat(f"monitored(other):history:undocumented_exception:{name}:{type(res[1]).__name__}")
+        elif res[0] == "err":
+            ctx.stat(f"monitored(other):history:documented_refusal:{type(res[1]).__name__}")
+        # 0. copy() / pickle / copy.copy / copy.deepcopy: a new object of the same class with an
+        #    identical definition
+        if res[0] == "ok" and name.endswith(ROUNDTRIP_SUFFIXES) and name.startswith(m.cls + "."):
+            r = res[1]
+            if type(r) is not type(m.obj):
+                ctx.prop_fail(f"history step {step}: {name} returned a {type(r).__name__}", rp, None)
+            elif r is m.obj:
+                ctx.prop_fail(f"history step {step}: {name} returned the operand itself", rp, None)
+            elif G.norm(definition(r)) != G.norm(definition(m.obj)) or extra_definition(r) != extra_definition(m.obj):
+                ctx.prop_fail(f"history step {step}: {name}: definitions differ: {definition(m.obj)!r:.200} vs "
+                              f"{definition(r)!r:.200} (allow_mutable={mutable})", rp, None)
         # 1. no effective write to any tracked container
         ch = log.changes()
         if ch:
@@ -480,6 +655,12 @@ def history(ctx: Ctx, rng, mutable: bool, steps: int, classes: List[str], origin
                 ctx.prop_fail(f"history step {step}: {name} changed the definition of pool member {idx} ({x.cls}) "
                               f"(allow_mutable={mutable}; operand={x in operands})", rp, None)
                 x.snap = now
+            extra_now = extra_definition(x.obj)
+            if extra_now != x.extra:
+                ctx.prop_fail(f"history step {step}: {name} changed a definition attribute kept in __dict__ of pool "
+                              f"member {idx} ({x.cls}): {x.extra!r:.120} -> {extra_now!r:.120} "
+                              f"(allow_mutable={mutable}; operand={x in operands})", rp, None)
+                x.extra = extra_now
         # results join the pool
         if res[0] == "ok" and M.is_automaton(res[1]) and len(pool) < 14 and type(res[1]).__name__ in G.CLASSES:
             r = res[1]
@@ -508,6 +689,13 @@ def run(ctx: Ctx):
         {"q": {"": {"p"}}}, [[[]]], [{1: [{2}]}], {1: {2: [{3}, [4]]}},
         (1, [2], {3}), frozenset({(1, 2)}), frozendict({1: [1, 2], 2: {3}}), True, None, 2.5, "", [],
         {"a": ("x", [1])}, [("x", [1])],
+        # tuples holding lists (entered since /repo fix 3900daf)
+        {"q0": {("1",): [("q1", [["1", "R"]])]}},               # reviewer's MNTM table
+        {"q0": {"a": {"0": ("q1", ["1", "0"])}}},               # DPDA pushing a list
+        {"q0": {"1": (["q1", "1", "R"],)}},                     # NTM results as a tuple of lists
+        {"q0": {"a": {"0": (("q1", ["1", "0"]),)}}},            # NPDA results as a tuple of (state, list)
+        (1, (2, ([3], {4: [5]}, {6}))), ((((([],),),),),), (frozendict({1: [2]}), frozenset({1})),
+        frozendict({1: (2, [3])}),
     ]
     for v in corpus_values:
         check_freeze(ctx, v, "corpus")
@@ -540,6 +728,32 @@ def run(ctx: Ctx):
             elif r < 0.25:
                 check_object_model(ctx, cls, kw, "extra_param", False, False, extra=True)
             probe_default(ctx, cls, kw, rng, "valid" + (":list_results" if lr else ""))
+    # tuple holding list (MNTM / NTM / DPDA / NPDA): frozen since fix 3900daf — the reviewer's
+    # MNTM [('q1', [['1','R']])] and DPDA ('q1', ['1','0']) first, then the generated family
+    fixed_tl = [
+        ("MNTM", dict(states={"q0", "q1"}, input_symbols={"1"}, tape_symbols={"1", "."}, n_tapes=1,
+                      transitions={"q0": {("1",): [("q1", [["1", "R"]])]}}, initial_state="q0", blank_symbol=".",
+                      final_states={"q1"})),
+        ("DPDA", dict(states={"q0", "q1"}, input_symbols={"a"}, stack_symbols={"0", "1"},
+                      transitions={"q0": {"a": {"0": ("q1", ["1", "0"])}}}, initial_state="q0",
+                      initial_stack_symbol="0", final_states={"q1"}, acceptance_mode="final_state")),
+        ("NTM", dict(states={"q0", "q1"}, input_symbols={"1"}, tape_symbols={"1", "."},
+                     transitions={"q0": {"1": (["q1", "1", "R"],)}}, initial_state="q0", blank_symbol=".",
+                     final_states={"q1"})),
+        ("NPDA", dict(states={"q0", "q1"}, input_symbols={"a"}, stack_symbols={"0", "1"},
+                      transitions={"q0": {"a": {"0": (("q1", ["1", "0"]),)}}}, initial_state="q0",
+                      initial_stack_symbol="0", final_states={"q1"}, acceptance_mode="final_state")),
+    ]
+    for cls, kw in fixed_tl:
+        for (m0, m1) in ((False, False), (True, True), (True, False), (False, True)):
+            check_object_model(ctx, cls, kw, "tuple_holding_list", m0, m1)
+        probe_default(ctx, cls, kw, rng, "tuple_holding_list")
+    for _ in range(ctx.budget(40, 400)):
+        for cls in TL_CLASSES:
+            kw = tuple_list_def(rng, cls)
+            for (m0, m1) in ((False, False), (True, False), (False, True)):
+                check_object_model(ctx, cls, kw, "tuple_holding_list", m0, m1)
+            probe_default(ctx, cls, kw, rng, "tuple_holding_list")
     # defaults: allow_partial / acceptance_mode omitted
     for cls, p in (("DFA", "allow_partial"), ("DPDA", "acceptance_mode"), ("NPDA", "acceptance_mode")):
         for _ in range(ctx.budget(5, 50)):
